@@ -135,6 +135,9 @@ func (s *Modifier) ModifyResponse(res *http.Response) error {
 		return nil
 	}
 
+	// The ranges are copied out of the file below: it is not needed afterwards.
+	defer f.Close()
+
 	sranges := strings.Split(strings.TrimPrefix(rh, "bytes="), ",")
 	var ranges [][]int
 	for _, rng := range sranges {
